@@ -245,7 +245,7 @@ class C11IndexND(Harness):
     bounds_doc = "2D (2x3) and 3D (2x2x2) histograms with symbolic contents/errors2/edges; index tuples mixing symbolic ints, slices with symbolic bounds and full slices; scalar case; too many indices"
 
     def instances(self, tier):
-        specs2 = ["i", "s", "i,i", "i,s", "s,i", "s,s", ":,i", "i,:", "i,i,i", ":,s"]
+        specs2 = ["i", "s", "i,i", "i,s", "s,i", "s,s", ":,i", "i,:", "i,i,i", ":,s", ":,:"]   # ":,:" - every axis kept whole: still a new object
         specs3 = ["i,i,i", "i,s,:", "s,:,i", ":,i,i", "i", "s,s,:", "i,i"] if tier != "quick" else ["i,i,i", "i,s,:", ":,i,i", "i,i"]
         for sp in specs2:
             yield f"nd-S2x3-{sp.replace(',', '_').replace(':', 'c')}", dict(shape=[2, 3], spec=sp)
